@@ -79,6 +79,12 @@ def setParent (h : Heap) (a : Addr) (p : Option Addr) : Heap :=
   | some n => h.put a { n with parent := p }
   | none => h.fault
 
+/-- `if (p) p->parent_pdu(q);` -/
+def setParentOpt (h : Heap) (p : Option Addr) (q : Option Addr) : Heap :=
+  match p with
+  | none => h
+  | some a => h.setParent a q
+
 def setView (h : Heap) (a : Addr) (v : View) : Heap :=
   match h.get a with
   | some n => h.put a { n with view := v }
@@ -112,10 +118,7 @@ def innerPduPtr (h : Heap) (a : Addr) (next : Option Addr) : Heap :=
   | none => h.fault
   | some n =>
     let h1 := deletePtr h n.inner
-    let h2 := h1.setInner a next
-    match next with
-    | none => h2
-    | some b => h2.setParent b (some a)
+    (h1.setInner a next).setParentOpt next (some a)
 
 /-- `p->clone()` = `new T(*p)`: storage, then `PDU(const PDU&)` (links null, `copy_inner_pdu(other)`), members copied -/
 def cloneNode : Nat → Heap → Addr → Heap × Option Addr
@@ -170,9 +173,7 @@ def moveCtor (h : Heap) (src : Addr) : Heap × Option Addr :=
     -- std::swap(inner_pdu_, rhs.inner_pdu_);
     let h2 := (h1.setInner b s.inner).setInner src none
     -- if (inner_pdu_) inner_pdu_->parent_pdu(this);
-    let h3 := match s.inner with
-      | none => h2
-      | some i => h2.setParent i (some b)
+    let h3 := h2.setParentOpt s.inner (some b)
     (h3.setView src s.view.moved, some b)
 
 /-- `PDU::operator=(PDU&& rhs)`: delete inner_pdu_; inner_pdu_ = 0; swap(inner_pdu_, rhs.inner_pdu_); re-parent -/
@@ -185,10 +186,8 @@ def moveAssignBase (h : Heap) (a src : Addr) : Heap :=
     match h2.get src with
     | none => h2.fault
     | some s =>
-      let h3 := (h2.setInner a s.inner).setInner src (if a = src then s.inner else none)
-      match s.inner with
-      | none => h3
-      | some i => h3.setParent i (some a)
+      let h3 := (h2.setInner a s.inner).setInner src none
+      h3.setParentOpt s.inner (some a)
 
 /-- implicit `T& T::operator=(T&&)` -/
 def moveAssignSame (h : Heap) (a src : Addr) : Heap :=
@@ -230,10 +229,7 @@ def releaseInner (h : Heap) (a : Addr) : Heap × Option Addr :=
   match h.get a with
   | none => (h.fault, none)
   | some n =>
-    let h1 := h.setInner a none
-    match n.inner with
-    | none => (h1, none)
-    | some r => (h1.setParent r none, some r)
+    ((h.setInner a none).setParentOpt n.inner none, n.inner)
 
 /-- `rhs.pdu() ? rhs.pdu()->clone() : 0` -/
 def cloneOpt (h : Heap) (p : Option Addr) : Heap × Option Addr :=
